@@ -24,7 +24,17 @@
      Db_len : forall x, length x = 16 -> length (Db x) = 16   (aes_decompress_out_len only)
      Db_Eb  : forall x, length x = 16 -> Db (Eb x) = x        (round trip only)
    Theorems 1-5 (cbc_*_app, residue invariant, both chunking theorems, the
-   refutations) need NO hypothesis on the cipher at all.                    *)
+   refutation) need NO hypothesis on the cipher at all.
+
+   State of the code modelled: AESDecompressor.decompress WITH the repair of its
+   unaligned branch (a non-empty chunk that does not complete a block together
+   with the residue is buffered; before, data[nextpos - buflen :] was a negative
+   slice there and cipher.decrypt raised ValueError).  The condition of the
+   decompress theorems, [dec_chunks_ok], has shrunk accordingly: it now only
+   excludes an EMPTY chunk on a non-empty residue (which is the end-of-stream
+   call and pads; aes_decompress_empty_chunk_refuted); every chunking into
+   non-empty chunks is correct (aes_decompress_chunking_nonempty,
+   aes_decompress_short_buffered, aes_decompress_short_chunks_ok).           *)
 
 From P7 Require Import Prelude.
 
@@ -150,12 +160,12 @@ Definition aligned16 (data : bytes) : bool := Z.land (blen data) 15 =? 0.
 
 (* what the decompressor's hypothesis looks like (see aes_decompress_chunking):
    r = current residue length; a chunk may arrive on a non-empty residue only
-   if it completes at least one block.                                       *)
+   if it is not empty (decompress(b"") is the end-of-stream call).           *)
 Fixpoint dec_chunks_ok (r : Z) (chunks : list bytes) : bool :=
   match chunks with
   | [] => true
   | d :: rest =>
-      ((r =? 0) || (16 <=? r + blen d))
+      ((r =? 0) || (0 <? blen d))
       && dec_chunks_ok ((r + blen d) mod 16) rest
   end.
 
@@ -252,6 +262,9 @@ Definition aes_decompress (st : dstate) (data : bytes) : dstate * bytes :=
     let (c1, temp) := cipher_decrypt (dcst st) (buf_view b1) in
     (* self.buf.reset() *)
     ({| dbuf := buf_reset b1; dcst := c1 |}, temp)
+  (* elif len(data) > 0 and currentlen < 16:  self.buf.add(data); return b"" *)
+  else if (0 <? blen data) && (currentlen <? 16) then
+    ({| dbuf := buf_add (dbuf st) data; dcst := dcst st |}, [])
   (* elif len(data) > 0: *)
   else if 0 <? blen data then
     (* nextpos = currentlen & ~0x0F *)
@@ -280,10 +293,10 @@ Definition aes_decompress (st : dstate) (data : bytes) : dstate * bytes :=
     ({| dbuf := buf_reset b1; dcst := c1 |}, temp3).
 
 (* Specification vocabulary for the decompressor: a call decompress(d) is
-   "good" when the residue is empty or residue + d completes a block.
+   "good" when the residue is empty or d is not empty.
    [dec_chunks_ok] (above) is the same condition along a whole schedule.   *)
 Definition dec_call_ok (st : dstate) (d : bytes) : Prop :=
-  blen (dbuf st) = 0 \/ 16 <= blen (dbuf st) + blen d.
+  blen (dbuf st) = 0 \/ 0 < blen d.
 
 (* ---------------------------------------------------------------------- *)
 (* 1.6 The same three methods with pycryptodome's ValueError made explicit *)
@@ -327,6 +340,8 @@ Definition aes_decompress_chk (st : dstate) (data : bytes) : res (dstate * bytes
     let b1 := buf_add (dbuf st) data in
     do (c1, temp) <- cipher_decrypt_chk (dcst st) (buf_view b1);
     Ok ({| dbuf := buf_reset b1; dcst := c1 |}, temp)
+  else if (0 <? blen data) && (currentlen <? 16) then
+    Ok ({| dbuf := buf_add (dbuf st) data; dcst := dcst st |}, [])
   else if 0 <? blen data then
     let nextpos := Z.land currentlen (Z.lnot 15) in
     let buflen := buf_len (dbuf st) in
@@ -1047,6 +1062,10 @@ Proof.
     destruct (cbc_dec Db c (buf ++ d)) as [out c1]. cbn [fst snd dbuf dcst].
     rewrite app_nil_r, blen_app. change (blen []) with 0. repeat split; auto; lia.
   - (* data, not aligned *)
+    destruct (Z.ltb_spec cur 16) as [Hlt16|Hge16]; cbn [andb].
+    { (* not even one block: everything is kept *)
+      exists []. rewrite cbc_dec_nil. cbn [fst snd dbuf dcst app].
+      rewrite blen_app. repeat split; auto. }
     set (k := 16 * (cur / 16) - blen buf).
     assert (Hk : 0 <= k <= blen d) by (subst k cur; Z.div_mod_to_equations; lia).
     exists (buf ++ py_slice_to d k).
@@ -1082,22 +1101,16 @@ Proof.
   pose proof (blen_nonneg (dbuf st)) as Hbn. pose proof (blen_nonneg d) as Hdn.
   destruct (Z.eq_dec (blen (dbuf st)) 0) as [H0|H0];
     [apply aes_decompress_residue; [exact Hb | left; exact H0]|].
-  destruct (Z_le_gt_dec 16 (blen (dbuf st) + blen d)) as [H16|H16];
-    [apply aes_decompress_residue; [exact Hb | right; exact H16]|].
+  destruct (Z_lt_le_dec 0 (blen d)) as [Hd|Hd];
+    [apply aes_decompress_residue; [exact Hb | right; exact Hd]|].
+  (* an empty chunk on a non-empty residue: the padding branch empties the buffer *)
+  assert (Hd0 : blen d = 0) by lia. rewrite (blen_zero_nil d Hd0).
   destruct st as [buf c]; cbn [dbuf] in *.
   unfold aes_decompress, buf_len, buf_add, buf_view, buf_reset, buf_set, cipher_decrypt.
-  cbn [dbuf dcst].
-  destruct ((0 <? blen d) && (Z.land (blen buf + blen d) 15 =? 0)).
-  - match goal with |- context [cbc_dec Db c ?x] => destruct (cbc_dec Db c x) end.
-    cbn [fst dbuf]. change (blen []) with 0. lia.
-  - destruct (0 <? blen d).
-    + match goal with |- context [cbc_dec Db c ?x] => destruct (cbc_dec Db c x) end.
-      cbn [fst dbuf].
-      match goal with |- blen (py_slice_from d ?k) < 16 =>
-        pose proof (py_slice_from_le d k) end. lia.
-    + destruct (blen buf =? 0); [cbn [fst dbuf]; exact Hb|].
-      match goal with |- context [cbc_dec Db c ?x] => destruct (cbc_dec Db c x) end.
-      cbn [fst dbuf]. change (blen []) with 0. lia.
+  cbn [dbuf dcst]. change (blen []) with 0. change (0 <? 0) with false. cbn [andb].
+  destruct (Z.eqb_spec (blen buf) 0) as [He|He]; [lia|].
+  match goal with |- context [cbc_dec Db c ?x] => destruct (cbc_dec Db c x) end.
+  cbn [fst dbuf]. change (blen []) with 0. lia.
 Qed.
 
 (* the final call decompress(b""): decrypts pad16 of the residue *)
@@ -1177,6 +1190,27 @@ Proof.
   apply dec_chunks_ok_ge16; [lia | exact Hall].
 Qed.
 
+Lemma dec_chunks_ok_nonempty : forall (chunks : list bytes) (r : Z)
+  (Hall : Forall (fun d => 0 < blen d) chunks),
+  dec_chunks_ok r chunks = true.
+Proof.
+  induction chunks as [|d rest IH]; intros r Hall; [reflexivity|].
+  inversion Hall as [|? ? Hd Hrest]; subst. cbn [dec_chunks_ok].
+  rewrite (IH ((r + blen d) mod 16) Hrest).
+  rewrite andb_true_r. apply orb_true_iff. right. lia.
+Qed.
+
+(* EVERY chunking into non-empty chunks (whatever their sizes) is decrypted correctly *)
+Corollary aes_decompress_chunking_nonempty : forall (iv : bytes) (chunks : list bytes)
+  (Hall : Forall (fun d => 0 < blen d) chunks),
+  let '(st, out) := decompress_all Db (dinit iv) chunks in
+  let '(_, tail) := aes_decompress Db st [] in
+  out ++ tail = fst (cbc_dec Db iv (pad16 (concat chunks))).
+Proof.
+  intros iv chunks Hall. apply aes_decompress_chunking.
+  apply dec_chunks_ok_nonempty. exact Hall.
+Qed.
+
 Corollary decompress_stream_spec (iv : bytes) (chunks : list bytes)
   (Hok : dec_chunks_ok 0 chunks = true) :
   decompress_stream Db iv chunks = fst (cbc_dec Db iv (pad16 (concat chunks))).
@@ -1216,7 +1250,8 @@ Proof.
     destruct (Z.eqb_spec (cur mod 16) 0) as [Hal|Hal]; cbn [andb].
   - rewrite cipher_decrypt_chk_ok by (rewrite blen_app; exact Hal).
     cbn [bind]. destruct (cipher_decrypt Db c (buf ++ d)); reflexivity.
-  - set (k := 16 * (cur / 16) - blen buf).
+  - destruct (Z.ltb_spec cur 16) as [Hlt16|Hge16]; cbn [andb]; [reflexivity|].
+    set (k := 16 * (cur / 16) - blen buf).
     assert (Hk : 0 <= k <= blen d) by (subst k cur; Z.div_mod_to_equations; lia).
     rewrite cipher_decrypt_chk_ok.
     + cbn [bind]. destruct (cipher_decrypt Db c (buf ++ py_slice_to d k)); reflexivity.
@@ -1239,27 +1274,23 @@ Proof.
   cbn [bind]. destruct (cipher_decrypt Db c (pad16 buf)); reflexivity.
 Qed.
 
-(* ... while EVERY bad call with data raises: a non-empty chunk that meets a
-   non-empty residue without completing a block makes `nextpos - buflen`
-   negative; data[:-buflen] is then added and a non-multiple of 16 is handed
-   to cipher.decrypt -> ValueError.                                         *)
-Theorem aes_decompress_chk_err (st : dstate) (d : bytes)
-  (Hb0 : 0 < blen (dbuf st)) (Hd0 : 0 < blen d)
-  (Hshort : blen (dbuf st) + blen d < 16) :
-  aes_decompress_chk Db st d = Err EOther.
+(* ... and a non-empty chunk that meets a non-empty residue without completing a block
+   (a short read at a volume boundary, a block size below 16) is kept for the next call:
+   nothing is handed to the cipher, nothing is returned.  (Before the repair the slice
+   data[nextpos - buflen :] was negative here and cipher.decrypt raised ValueError.)      *)
+Theorem aes_decompress_short_buffered (st : dstate) (d : bytes)
+  (Hd0 : 0 < blen d) (Hshort : blen (dbuf st) + blen d < 16) :
+  aes_decompress_chk Db st d = Ok ({| dbuf := dbuf st ++ d; dcst := dcst st |}, []) /\
+  aes_decompress Db st d = ({| dbuf := dbuf st ++ d; dcst := dcst st |}, []).
 Proof.
-  destruct st as [buf c]; cbn [dbuf] in *.
-  unfold aes_decompress_chk, buf_len, buf_add, buf_view. cbn [dbuf dcst].
-  rewrite land15, land_not15.
+  destruct st as [buf c]; cbn [dbuf dcst] in *. pose proof (blen_nonneg buf) as Hbn.
+  unfold aes_decompress_chk, aes_decompress, buf_len, buf_add, buf_view. cbn [dbuf dcst].
+  rewrite land15.
   set (cur := blen buf + blen d) in *.
   destruct (Z.ltb_spec 0 (blen d)) as [Hd|Hd]; [|lia].
   destruct (Z.eqb_spec (cur mod 16) 0) as [Hal|Hal]; cbn [andb].
   { exfalso. subst cur. Z.div_mod_to_equations. lia. }
-  rewrite cipher_decrypt_chk_err; [reflexivity|].
-  replace (cur / 16) with 0 by (subst cur; Z.div_mod_to_equations; lia).
-  rewrite blen_app. unfold py_slice_to, py_index.
-  destruct (Z.ltb_spec (16 * 0 - blen buf) 0) as [Hk|Hk]; [|lia].
-  unfold blen in *. rewrite firstn_length. Z.div_mod_to_equations. lia.
+  destruct (Z.ltb_spec cur 16) as [Hlt|Hge]; [|lia]. cbn [andb]. split; reflexivity.
 Qed.
 
 (* an empty chunk on a non-empty residue pads prematurely (no exception) *)
@@ -1319,7 +1350,9 @@ Proof.
   destruct st as [buf c]; cbn [dcst] in Hc.
   unfold aes_decompress, cipher_decrypt. cbn [dbuf dcst].
   destruct ((0 <? blen d) && (Z.land (buf_len buf + blen d) 15 =? 0));
-    [|destruct (0 <? blen d); [|destruct (buf_len buf =? 0)]].
+    [|destruct ((0 <? blen d) && (buf_len buf + blen d <? 16));
+      [cbn [fst snd dcst]; split; [reflexivity | exact Hc]
+      |destruct (0 <? blen d); [|destruct (buf_len buf =? 0)]]].
   - match goal with |- context [cbc_dec Db c ?x] =>
       destruct (cbc_dec_length c x Hc) as [H1 H2]; destruct (cbc_dec Db c x) end.
     cbn [fst snd dcst] in *. rewrite H1. split; [apply mult16_mod | exact H2].
@@ -1487,7 +1520,7 @@ Example ex_roundtrip :
 Proof. vm_compute. split; reflexivity. Qed.
 
 (* ---------------------------------------------------------------------- *)
-(* Theorem 5: the unrestricted decompress statement is FALSE of the model. *)
+(* Theorem 5 (since the repair of AESDecompressor.decompress): short chunks are buffered. *)
 (* 32 bytes of genuine ciphertext delivered as 5 + 5 + 22 bytes: on the   *)
 (* second call buflen = 5, currentlen = 10, nextpos = 0, so               *)
 (*   temp2 = data[-5:]  = the whole second chunk                          *)
@@ -1501,23 +1534,14 @@ Definition ex_cipher32 : bytes := fst (cbc_enc toyE ex_iv (ex_plain 32)).
 Definition ex_short_chunks : list bytes :=
   [firstn 5 ex_cipher32; firstn 5 (skipn 5 ex_cipher32); skipn 10 ex_cipher32].
 
-Theorem aes_decompress_short_refuted :
-  exists (iv : bytes) (chunks : list bytes),
-    (* total model: wrong plaintext *)
-    (let '(st, out) := decompress_all toyD (dinit iv) chunks in
-     let '(_, tail) := aes_decompress toyD st [] in out ++ tail)
-    <> fst (cbc_dec toyD iv (pad16 (concat chunks))) /\
-    (* checked model: the second call raises (ValueError) *)
-    decompress_all_chk toyD (dinit iv) chunks = Err EOther /\
-    (* although this is a legal ciphertext and the reference decrypts it *)
-    fst (cbc_dec toyD iv (pad16 (concat chunks))) = ex_plain 32 /\
-    dec_chunks_ok 0 chunks = false.
+Theorem aes_decompress_short_chunks_ok :
+  (* the schedule that used to raise (32 bytes of ciphertext delivered as 5 + 5 + 22 bytes) *)
+  dec_chunks_ok 0 ex_short_chunks = true /\
+  (exists r, decompress_all_chk toyD (dinit ex_iv) ex_short_chunks = Ok r) /\
+  decompress_stream toyD ex_iv ex_short_chunks = ex_plain 32.
 Proof.
-  exists ex_iv, ex_short_chunks. split; [|split; [|split]].
-  - vm_compute. intro H. discriminate H.
-  - vm_compute. reflexivity.
-  - vm_compute. reflexivity.
-  - vm_compute. reflexivity.
+  split; [vm_compute; reflexivity|]. split; [eexists; vm_compute; reflexivity|].
+  vm_compute. reflexivity.
 Qed.
 
 (* A second way to break it, without any exception: an EMPTY chunk arriving
@@ -1567,7 +1591,7 @@ Check aes_compress_total_length.
 Check aes_flush_chk_ok.
 Check aes_compress_chk_ok.
 Check aes_decompress_chk_ok.
-Check aes_decompress_chk_err.
+Check aes_decompress_short_buffered.
 Check decompress_all_chk_ok.
 
 Print Assumptions cbc_enc_app.
@@ -1579,7 +1603,8 @@ Print Assumptions aes_compress_chunking.
 Print Assumptions aes_decompress_chunking.
 Print Assumptions aes_decompress_chunking_ge16.
 Print Assumptions aes_roundtrip.
-Print Assumptions aes_decompress_short_refuted.
+Print Assumptions aes_decompress_short_chunks_ok.
+Print Assumptions aes_decompress_chunking_nonempty.
 Print Assumptions aes_decompress_empty_chunk_refuted.
 Print Assumptions aes_compress_out_len.
 Print Assumptions aes_decompress_out_len.
@@ -1587,7 +1612,7 @@ Print Assumptions aes_compress_total_length.
 Print Assumptions aes_compress_chk_ok.
 Print Assumptions aes_flush_chk_ok.
 Print Assumptions aes_decompress_chk_ok.
-Print Assumptions aes_decompress_chk_err.
+Print Assumptions aes_decompress_short_buffered.
 Print Assumptions decompress_all_chk_ok.
 Print Assumptions rb_add_view.
 Print Assumptions toy_roundtrip.
